@@ -260,9 +260,12 @@ def _val_chunk(cases):
     W = _val_world()
     out, n, acc = [], 0, 0
     sig = set()
+    history = []  # LINE_RANGE cases seen so far in this chunk (the control is long-lived: order can matter)
     for (cur, mbv, ot, side, price, size, liab, ladder, line) in cases:
         n += 1
         cur_k = cur
+        if ladder == "LINE_RANGE":
+            history.append([cur_k, mbv, ot, side, price, size, liab, ladder, list(line)])
         # currency "XXX:betfair" = live Betfair client; "NONE:betfair" = no account details yet,
         # "ZZZ:betfair" = currency missing from the table (both documented to fall back to GBP)
         kind = "sim"
@@ -303,7 +306,7 @@ def _val_chunk(cases):
                     "C17.c",
                     ("OrderValidation", ladder, ot, pred),
                     "%s %s %s price=%r size=%r liab=%r cur=%s mbv=%s: got %r expected %r" % (ot, side, ladder, price, size, liab, cur, mbv, got, exp),
-                    dict(currency=cur_k, min_bet_validation=mbv, ot=ot, side=side, price=price, size=size, liab=liab, ladder=ladder, line=line),
+                    dict(currency=cur_k, min_bet_validation=mbv, ot=ot, side=side, price=price, size=size, liab=liab, ladder=ladder, line=line, prefix=list(history[:-1]) if ladder == "LINE_RANGE" else []),
                 )
             )
         elif got is False and o.status != OrderStatus.VIOLATION:
@@ -334,7 +337,8 @@ def _val_cases(tier):
             cases.append(("GBP", True, "LOC", "LAY", p, None, 10.0, ladder, None))
             cases.append(("EUR", False, "LOC", "BACK", p, None, 2.0, ladder, None))
     # line ladders
-    for line in ((0.5, 10.5, 1), (0, 20, 0.5), (100.5, 300.5, 1.0), (1, 9, 2)):
+    # incl. ladders that share min/max but differ in the interval, visited in both orders (one control instance)
+    for line in ((0.5, 10.5, 1), (0.5, 10.5, 0.5), (0.5, 10.5, 1), (0, 20, 0.5), (0, 20, 1), (0, 20, 0.5), (100.5, 300.5, 1.0), (1, 9, 2), (1, 9, 1)):
         mn, mx, iv = line
         k = 0
         while mn + k * iv / 4 <= mx + iv:
@@ -508,7 +512,10 @@ def replay(rep):
         print(utils.price_ticks_away(case["price"], case["n"]), "expected", case.get("expected"))
         return 0
     if "ot" in case:
-        r = _val_chunk([(case["currency"], case["min_bet_validation"], case["ot"], case["side"], case["price"], case["size"], case["liab"], case["ladder"], tuple(case["line"]) if case.get("line") else None)])
+        _W.clear()  # fresh control instance, then the same sequence of line-ladder cases that preceded the failing one
+        seq = [tuple(x[:8]) + (tuple(x[8]),) for x in case.get("prefix") or []]
+        seq.append((case["currency"], case["min_bet_validation"], case["ot"], case["side"], case["price"], case["size"], case["liab"], case["ladder"], tuple(case["line"]) if case.get("line") else None))
+        r = _val_chunk(seq)
         print(r["violations"] or "no violation now")
         return 1 if r["violations"] else 0
     print("nothing to replay for this case")
